@@ -413,6 +413,9 @@ def percentiles_summary(df, num_old, num_new, upsample, state):
         Scale factor to increase the number of percentiles calculated in
         each partition.  Use to improve accuracy.
     """
+    # nulls take no part in the divisions (they are placed by ``na_position``);
+    # a partition without any valid value contributes nothing, like an empty one
+    df = df.dropna()
     length = len(df)
     if length == 0:
         return ()
